@@ -157,6 +157,7 @@ def make_track(kind: str = "video", timescale: Optional[int] = None,
                default_base_is_moof: bool = True, base: Optional[str] = None,
                track_id: int = 1, start_number: int = 1, payload_size: int = 200, seed: int = 0,
                payload_bytes: Optional[Sequence[Optional[int]]] = None,
+               largesize: Sequence[str] = (), moof_pssh: Union[bool, str] = False,
                with_mehd: bool = True, traf_order: str = "trun_first",
                sample_durations_in: str = "trun", trun_data_offset: bool = True,
                trun_first_sample_flags: Optional[bool] = None, trun_cto: bool = False,
@@ -191,6 +192,10 @@ def make_track(kind: str = "video", timescale: Optional[int] = None,
         'explicit-mdat'    tfhd base_data_offset = absolute file position of the first payload byte and a
                            trun *without* data_offset field (clear tracks only: saio offsets are unsigned)
     payload_size         average sample size in bytes (sizes are pseudo-random in [½, 1½]·payload_size)
+    largesize            box types written with the 64-bit `largesize` header form (size field 1 + 8 byte
+                         size): any of 'mdat', 'moof'
+    moof_pssh            a version-1 `pssh` box (system id = Common PSSH, one KID) as a child of every moof:
+                         True/'after' behind the traf, 'before' between mfhd and traf
     payload_bytes        per segment: exact total mdat payload length (None: from payload_size); split
                          pseudo-randomly over the segment's samples (each >= 5 bytes) – for size classes
                          (segments around a reader's cache window, very large segments)
@@ -252,7 +257,11 @@ def make_track(kind: str = "video", timescale: Optional[int] = None,
             edges = [0] + cuts + [total - 5 * n]
             sizes = [5 + edges[i + 1] - edges[i] for i in range(n)]
         payload = b"".join(_sample_bytes(rng, kind, sizes[i], i == 0) for i in range(n))
-        mdat = box("mdat", payload)
+        if "mdat" in largesize:
+            mdat = struct.pack(">I4sQ", 1, b"mdat", 16 + len(payload)) + payload
+        else:
+            mdat = box("mdat", payload)
+        mdat_hdr = len(mdat) - len(payload)
 
         where = sample_durations_in
         if where != "trun" and len(set(durs)) != 1:
@@ -357,7 +366,15 @@ def make_track(kind: str = "video", timescale: Optional[int] = None,
                 parts.append(trun_box(data_offset))
             traf = box("traf", *parts)
             mfhd = full("mfhd", 0, 0, u32(start_number + k))
-            return box("moof", mfhd, traf), senc_at
+            pssh = b""
+            if moof_pssh:
+                pssh = full("pssh", 1, 0, bytes.fromhex("1077efecc0b24d02ace33c1e52e2fb4b"), u32(1), kid, u32(0))
+            kids_ = [mfhd, pssh, traf] if moof_pssh == "before" else [mfhd, traf, pssh]
+            shift = len(pssh) if moof_pssh == "before" else 0
+            if "moof" in largesize:
+                body = b"".join(kids_)
+                return struct.pack(">I4sQ", 1, b"moof", 16 + len(body)) + body, (senc_at + 8 + shift if senc_at >= 0 else -1)
+            return box("moof", *kids_), (senc_at + shift if senc_at >= 0 else -1)
 
         probe, senc_at = moof_box(0, 0, 0)
         moof_len = len(probe)
@@ -374,7 +391,7 @@ def make_track(kind: str = "video", timescale: Optional[int] = None,
                       "explicit-mdat": moof_pos + moof_len + 8, "absolute": 0, "absolute-lead": len(out)}[base]
         # position of the moof relative to the base
         rel = moof_pos - base_value if base in ("absolute", "absolute-lead") else 0
-        data_offset = rel + moof_len + 8
+        data_offset = rel + moof_len + mdat_hdr
         saio_offset = rel + senc_at if encrypted else 0
         moof, _ = moof_box(base_value, data_offset, saio_offset)
         assert len(moof) == moof_len
@@ -392,6 +409,10 @@ def layout(data: bytes) -> list[dict]:
     segs, cur, seen_moov = [], None, False
     while pos < n:
         size, typ = struct.unpack(">I4s", data[pos:pos + 8])
+        hdr = 8
+        if size == 1:
+            size = struct.unpack(">Q", data[pos + 8:pos + 16])[0]
+            hdr = 16
         t = typ.decode("latin-1")
         if t == "moov":
             seen_moov = True
@@ -401,7 +422,7 @@ def layout(data: bytes) -> list[dict]:
             if t == "moof":
                 cur["moof"], cur["moof_size"] = pos, size
             elif t == "mdat":
-                cur.update(mdat=pos, payload_start=pos + 8, payload_end=pos + size, end=pos + size)
+                cur.update(mdat=pos, payload_start=pos + hdr, payload_end=pos + size, end=pos + size)
                 segs.append(cur)
                 cur = None
             else:
